@@ -1,8 +1,8 @@
 (** C04 — Only the identity the auth backend verified is authenticated.
     Statements only; every proof is [exact <lemma>] or a [vm_compute] witness. *)
-From Coq Require Import String Ascii List Bool Arith ZArith.
+From Coq Require Import String Ascii List Bool Arith ZArith Permutation.
 From Raven Require Import Base.GoStr Base.GoStrB64 Base.GoStrJson Spec.Json Model.Auth Spec.AuthSpec
-  Proof.AuthJson Proof.AuthIdent Proof.AuthFlow Proof.AuthSasl Proof.AuthLogin Proof.AuthB64 Proof.AuthPlain Proof.AuthEnd.
+  Proof.AuthJson Proof.AuthIdent Proof.AuthFlow Proof.AuthSasl Proof.AuthLogin Proof.AuthB64 Proof.AuthPlain Proof.AuthEnd Proof.AuthConc.
 Import ListNotations.
 
 (** (a) For ALL addresses and passwords that are valid UTF-8 -- every ASCII
@@ -135,6 +135,59 @@ Theorem c04_session_bound_exact : forall l : list attempt,
     /\ exists body, sent (run_attempt false a) = [body] /\ body_exact body (address_of (a_domain a) u) p.
 Proof. exact session_bound_exact. Qed.
 Print Assumptions c04_session_bound_exact.
+
+(** ---- concurrent logins on different connections ---- *)
+
+(** For EVERY interleaving of the steps (render the request, send it) of any
+    number of sessions, with the backend any function from the body it receives
+    to its outcome: every body the backend receives is the encoding of SOME
+    session's own credentials, and every session finishes exactly as it would
+    alone with the backend's answer to the encoding of ITS OWN credentials
+    ([answer_to i] = bk (request_of (sess i))). *)
+Theorem c04_conc_own_credentials : forall (sess : nat -> csession) (bk : str -> outcome) (sched : list cev),
+  let st := run_sched sess bk sched in
+  (forall body, In body (recv st) -> exists i, request_of (sess i) = Some body)
+  /\ (forall i o, outs st i = Some o -> o = finish (sess i) (answer_to sess bk i)).
+Proof. exact conc_own_credentials. Qed.
+Print Assumptions c04_conc_own_credentials.
+
+(** When each of the sessions 0..N-1 renders and then sends once, in any
+    interleaving: the multiset of bodies received is the multiset of the
+    sessions' own encodings. *)
+Theorem c04_conc_multiset : forall (sess : nat -> csession) (bk : str -> outcome) (sched : list cev) (N : nat),
+  wf_sched [] sched = true -> Permutation (sends sched) (seq 0 N) ->
+  Permutation (recv (run_sched sess bk sched))
+              (flat_map (fun i => olist (request_of (sess i))) (seq 0 N)).
+Proof. exact conc_multiset. Qed.
+Print Assumptions c04_conc_multiset.
+
+(** ... and session i is authenticated only if the backend accepted the
+    encoding of ITS credentials, and is then bound to the store of ITS address *)
+Theorem c04_conc_session_spec : forall (sess : nat -> csession) (bk : str -> outcome) (sched : list cev) i o,
+  outs (run_sched sess bk sched) i = Some o ->
+  ensure_sound (cs_ens (sess i)) ->
+  in_domain (cs_d (sess i)) (cs_u (sess i)) (cs_p (sess i)) = true ->
+  imap_spec (cs_d (sess i)) (cs_u (sess i)) (cs_p (sess i)) (accepted (answer_to sess bk i)) o.
+Proof. exact conc_session_spec. Qed.
+Print Assumptions c04_conc_session_spec.
+
+(** contrast (not raven's code): with ONE buffer shared by the sessions the
+    schedule render 0, render 1, send 0, send 1 makes the backend receive
+    session 1's body twice and authenticates session 0 (wrong password) *)
+Example c04_shared_buffer_would_mix :
+  let sess := fun i => match i with
+                       | 0 => mk_csession (S_ "d.test") (S_ "alice") (S_ "wrong-pw") ensure_ok true
+                       | _ => mk_csession (S_ "d.test") (S_ "mally") (S_ "right-pw") ensure_ok true
+                       end in
+  let good := build_body (S_ "mally@d.test") (S_ "right-pw") in
+  let bk := fun body => if str_eqb body good then Status 200 else Status 401 in
+  let sched := [Render 0; Render 1; Send 0; Send 1] in
+  let '(_, rc, out) := fold_left (cstep_shared sess bk) sched (None, [], fun _ => None) in
+  rc = [good; good]
+  /\ option_map answer (out 0) = Some R_OK
+  /\ option_map answer (outs (run_sched sess bk sched) 0) = Some R_NO
+  /\ recv (run_sched sess bk sched) = [build_body (S_ "alice@d.test") (S_ "wrong-pw"); good].
+Proof. vm_compute. repeat split; reflexivity. Qed.
 
 (** ---- entry points: from the bytes on the wire ---- *)
 
